@@ -180,6 +180,24 @@ theorem C03_short_all_in {s : State} {p : Nat} {rest : List Nat} {st : Street}
   repeat' split
   all_goals first | rfl | simp_all
 
+/-- … but all-in raises that add up to a full raise (or a single full all-in raise) re-open the
+    betting: having acted is then no obstacle, the remaining tests decide alone (WSOP rule 96) -/
+theorem C03_full_all_ins_reopen {s : State} {p : Nat} {rest : List Nat} {st : Street}
+    (ha : s.actors = p :: rest) (hs : getI s.stacks p ≠ 0) (hst : s.street cfg = some st)
+    (hsum : s.cbrAmount ≤ sumI s.consecAllIn) :
+    s.verifyCbr0 cfg =
+      (if (match st.maxCount with | some c => s.cbrCount == c | none => false) then .error .valueError
+       else if getI s.stacks p ≤ maxI s.bets - getI s.bets p then .error .valueError
+       else if !((playerIndices cfg).any fun i =>
+           i != p && getB s.statuses i && getI s.stacks i + getI s.bets i > maxI s.bets)
+         then .error .valueError
+       else .ok p) := by
+  rw [C03_admissible ha hs hst]
+  have h1 : (!s.consecAllIn.isEmpty && decide (sumI s.consecAllIn < s.cbrAmount) && s.acted.contains p) = false := by
+    have : decide (sumI s.consecAllIn < s.cbrAmount) = false := by simp; omega
+    simp [this]
+  simp only [h1, Bool.false_eq_true, if_false]
+
 /-- … and a refused admissibility test refuses every amount -/
 theorem C03_refuses_all {s : State} {e : Err} (h : s.verifyCbr0 cfg = .error e) (a : Option Int) :
     s.verifyCbr cfg a = .error e := by
